@@ -431,6 +431,8 @@ func (r *runner) resolveInterruptCompletedTasks(subGraphInterrupts map[string]*s
 			} else if errors.Is(completedTasks[i].err, InterruptAndRerun) {
 				*interruptRerunNodes = append(*interruptRerunNodes, completedTasks[i].nodeKey)
 				continue
+			} else if completedTasks[i].errNamed {
+				return completedTasks[i].err
 			} else {
 				return wrapGraphNodeError(completedTasks[i].nodeKey, completedTasks[i].err)
 			}
